@@ -60,7 +60,7 @@ MANIFEST = dict(
     'Round 3: short_summary, __str__, print_general_statistics, get_html, get_latex (only_robust both ways), get_f12 (robust_std_err both ways) of every generated object, the files of '
     'write_html/write_f12, the object read back from write_pickle and the reports printed after the write_* calls are parsed into labelled figures: labels in order and every printed figure '
     '= format(model value) (model) and = the quantity the words name to the digits printed (oracle); get_correlation_results(subset), get_bootstrap_var_covar, bootstrap draws by name; '
-    'compile_estimation_results on pickle file names and compile_results_in_directory; numerically rank-deficient Gram Hessians at several scales; large-sample likelihoods with init != null.',
+    'compile_estimation_results on pickle file names and compile_results_in_directory; dictionaries mixing results objects, readable pickle files and unreadable entries (missing / corrupt / empty file) in every order, use_short_names both ways, and a directory with a stray unreadable *.pickle and a non-pickle file: column k depends on entry k only, the column of an unreadable entry is empty (Model/StatsCompile.lean; compiled_column_local, compiled_unreadable_empty, compiled_entries_labels, compiled_entries_all_readable); numerically rank-deficient Gram Hessians at several scales; large-sample likelihoods with init != null.',
     design='DESIGN.md §5 C08',
     technique='Lean 4 theorems over an executable NumOps model (Float in the driver, R in the proofs) + differential correspondence with real bioResults objects (attributes, tables, every text report parsed back) + translator from live objects (label -> attribute tables, decide) + independent numpy oracle',
     note='Partial: LAPACK (pinv/eigh/svd/inv), scipy Phi and chi-square quantile, numpy cov/dot and str.format are trusted; the pseudo-inverse is relational '
@@ -947,7 +947,7 @@ def gen_compile(rng):
              'Likelihood ratio test for the init. model', 'Rho-square for the init. model', 'Rho-square-bar for the init. model',
              'Akaike Information Criterion', 'Bayesian Information Criterion', 'Final gradient norm', 'Nbr of threads']
     stats = list(DEFAULT_STATS) if rng.random() < 0.4 else rng.sample(avail, rng.randint(0, 6))
-    return {
+    cc = {
         'kind': 'compile',
         'models': cases,
         'model_names': rng.sample(['logit', 'nested 1', 'M_b', 'zz', 'a'], n),
@@ -961,15 +961,47 @@ def gen_compile(rng):
         # 'files': the dictionary holds the names of the pickle files instead of the objects
         'via': rng.choice(['dict', 'dict', 'dict', 'directory', 'files']),
     }
+    r = rng.random()
+    if r < 0.35:
+        # error paths: results objects, readable pickle files and unreadable entries (missing file, corrupt file,
+        # empty file) mixed in every order; every model's column must follow from THAT model's raw outcome and
+        # the column of an unreadable entry must stay empty
+        layout = [rng.choice(['obj', 'file']) for _ in range(n)]
+        for _ in range(rng.randint(1, 2)):
+            layout.insert(rng.randint(0, len(layout)), rng.choice(['missing', 'corrupt', 'empty']))
+        cc['via'] = 'mixed'
+        cc['layout'] = layout
+        cc['model_names'] = rng.sample(['logit', 'nested 1', 'M_b', 'zz', 'a', 'lost', 'old run'], len(layout))
+    elif cc['via'] == 'directory' and rng.random() < 0.6:
+        cc['stray'] = rng.choice(['corrupt', 'empty'])  # a stray unreadable *.pickle (and a non-pickle file) in the directory
+    return cc
+
+
+UNREADABLE = {'missing': None, 'corrupt': b'this is not a pickle file', 'empty': b''}
+
+
+def colmap(cc):
+    """column -> index of the model it must hold, None for an entry that cannot be read"""
+    layout = cc.get('layout') or ['obj'] * len(cc['models'])
+    out, k = [], 0
+    for kind in layout:
+        if kind in UNREADABLE:
+            out.append(None)
+        else:
+            out.append(k)
+            k += 1
+    return out
 
 
 def run_compile(cc):
     from biogeme.results import compile_estimation_results, compile_results_in_directory
 
     via = cc.get('via', 'dict')
+    cm = colmap(cc)
+    valid_names = [n for n, m in zip(cc['model_names'], cm) if m is not None]
     with np.errstate(all='ignore'):
         results, outs = [], []
-        for c, n in zip(cc['models'], cc['model_names']):
+        for c, n in zip(cc['models'], valid_names):
             r = build_results(dict(c, model_name=n) if via != 'dict' else c)
             results.append(r)
             outs.append(extract(r))
@@ -978,6 +1010,23 @@ def run_compile(cc):
             df, conf = compile_estimation_results(
                 d, statistics=tuple(cc['statistics']), include_parameter_estimates=cc['params'], include_robust_stderr=cc['std'],
                 include_robust_ttest=cc['ttest'], formatted=cc['formatted'], use_short_names=cc['short'])
+        elif via == 'mixed':
+            with core.scratch():
+                d = {}
+                for col, (kind, n, m) in enumerate(zip(cc['layout'], cc['model_names'], cm)):
+                    if kind == 'obj':
+                        d[n] = results[m]
+                    elif kind == 'file':
+                        d[n] = results[m].write_pickle()
+                        results[m].data.pickleFileName = None
+                    else:
+                        d[n] = f'unreadable_{col}.pickle'
+                        if UNREADABLE[kind] is not None:
+                            with open(d[n], 'wb') as f:
+                                f.write(UNREADABLE[kind])
+                df, conf = compile_estimation_results(
+                    d, statistics=tuple(cc['statistics']), include_parameter_estimates=cc['params'], include_robust_stderr=cc['std'],
+                    include_robust_ttest=cc['ttest'], formatted=cc['formatted'], use_short_names=cc['short'])
         else:
             with core.scratch():
                 files = [r.write_pickle() for r in results]
@@ -989,20 +1038,30 @@ def run_compile(cc):
                         d, statistics=tuple(cc['statistics']), include_parameter_estimates=cc['params'], include_robust_stderr=cc['std'],
                         include_robust_ttest=cc['ttest'], formatted=cc['formatted'], use_short_names=cc['short'])
                 else:
+                    stray = cc.get('stray')
+                    if stray:
+                        with open('notes.txt', 'w') as f:
+                            f.write('not a result file')
+                        with open('stray_file.pickle', 'wb') as f:
+                            f.write(UNREADABLE[stray])
+                        files = files + ['stray_file.pickle']
+                        valid_names = valid_names + ['stray_file.pickle']
                     df, conf = compile_results_in_directory(
                         statistics=tuple(cc['statistics']), include_parameter_estimates=cc['params'], include_robust_stderr=cc['std'],
                         include_robust_ttest=cc['ttest'], formatted=cc['formatted'])
                     # glob order is arbitrary: columns back into the order of the models, named by the model
-                    back = {f: n for f, n in zip(files, cc['model_names'])}
+                    back = {f: n for f, n in zip(files, valid_names)}
                     if sorted(conf.values()) != sorted(files) or sorted(map(str, df.columns)) != sorted(files):
                         raise ValueError(f'compile_results_in_directory: columns {list(df.columns)} / {conf} are not the pickle files {files}')
                     # glob order is arbitrary: the models are processed in the order of the columns
                     order = [files.index(str(c)) for c in df.columns]
                     df = df.rename(columns=back)
                     conf = {back[c]: back[f] for c, f in conf.items()}
-                    outs = [outs[i] for i in order]
-                    cc['models'] = [cc['models'][i] for i in order]
-                    cc['model_names'] = [cc['model_names'][i] for i in order]
+                    nm = len(cc['models'])
+                    outs = [outs[i] for i in order if i < nm]
+                    cc['models'] = [cc['models'][i] for i in order if i < nm]
+                    cc['model_names'] = [valid_names[i] for i in order]
+                    cc['layout'] = ['file' if i < nm else stray for i in order]
     cols = [str(c) for c in df.columns]
     table = {'columns': cols, 'index': [str(i) for i in df.index], 'values': df.to_numpy(dtype=object).tolist(), 'conf': dict(conf)}
     for row in table['values']:
@@ -1022,8 +1081,18 @@ def oracle_compile(cc, table, outs):
     if [table['conf'].get(c) for c in cols] != cc['model_names']:
         bad.append(('columns of the compiled table do not map back to the models', [table['conf'].get(c) for c in cols], cc['model_names'], W))
         return bad
+    cm = colmap(cc)
+    if len(cols) != len(cm):
+        bad.append(('the compiled table does not have one column per entry of the dictionary', cols, cc['model_names'], W))
+        return bad
     for rl, row in zip(table['index'], table['values']):
-        for m, cell in enumerate(row):
+        for col, cell in enumerate(row):
+            m = cm[col]
+            if m is None:
+                # an entry that cannot be read: nothing of any other model may be shown in its column
+                if cell != '':
+                    bad.append((f'compiled table: cell ({rl!r}, {cc["model_names"][col]!r}) of an entry that cannot be read is not empty', cell, '', W))
+                continue
             case, out = cc['models'][m], outs[m]
             by_name = {b['name']: b for b in out['betas']}
             exp = '<none>'
@@ -1056,7 +1125,7 @@ def oracle_compile(cc, table, outs):
             else:
                 ok = cell == exp and type(cell) is type(exp) or (isinstance(exp, int) and isinstance(cell, (int, float)) and cell == exp)
             if not ok:
-                bad.append((f'compiled table: cell ({rl!r}, model {cc["model_names"][m]!r}) is not the quantity the row label names', cell, exp, W))
+                bad.append((f'compiled table: cell ({rl!r}, model {cc["model_names"][col]!r}) is not the quantity the row label names', cell, exp, W))
     # every parameter of every model appears
     if cc['params']:
         for m, out in enumerate(outs):
@@ -1072,6 +1141,7 @@ def compile_req(cc, outs):
         'op': 'compile', 'statistics': cc['statistics'], 'params': cc['params'], 'std': cc['std'], 'ttest': cc['ttest'],
         'formatted': cc['formatted'],
         'models': [{'raw': raw_req(c, o), 'rep': rep_req(c, o)} for c, o in zip(cc['models'], outs)],
+        'entries': colmap(cc),
     }
 
 
@@ -1576,6 +1646,9 @@ def check_compile(ctx, res, cc):
               nontrivial=len(cc['models']) >= 2)
     res.tally('compile_formatted' if cc['formatted'] else 'compile_numeric')
     res.tally(f'compile_via_{cc.get("via", "dict")}')
+    for kind in cc.get('layout') or []:
+        if kind in UNREADABLE:
+            res.tally(f'compile_unreadable_{kind}')
     for what, obs, exp, where in oracle_compile(cc, table, outs)[:3]:
         res.violate(what, cc, obs, exp, where=where)
     ctx.batch.add(compile_req(cc, outs), lambda ans, cc=cc, table=table: compare_compile(res, cc, table, ans))
